@@ -9,9 +9,9 @@
    (d) the variant of the period-stepping loop and the guard that makes it apply.
    Property theorems only. *)
 From Coq Require Import String.
-From LedgerV Require Import Base.Prelude Base.Round Model.Amount Model.Buffers Model.Nesting Model.Stepping
+From LedgerV Require Import Base.Prelude Base.Round Model.Amount Model.Buffers Model.Nesting Model.Stepping Model.FormatRef
   Gen.BufferSites Gen.SafetyGuards
-  Proofs.BuffersProofs Proofs.NestingProofs Proofs.DivGuardProofs Proofs.SteppingProofs.
+  Proofs.BuffersProofs Proofs.NestingProofs Proofs.DivGuardProofs Proofs.SteppingProofs Proofs.FormatRefProofs.
 Import List.
 Local Open Scope Z_scope.
 
@@ -217,13 +217,46 @@ Theorem day_period_start_closed_form :
 Proof. exact catch_up_days_closed_form_proof. Qed.
 Print Assumptions day_period_start_closed_form.
 
+(* ================= (e) the `%$N` prior-field reference of format strings ================= *)
+
+(* with the tests the SOURCE has today the walk along the template never dereferences the null
+   pointer, whatever the template and whatever character follows `%$`; the statement is about the
+   source's guard and stops compiling when `&& tmpl_elem` (or one of the tests around it) is dropped *)
+Theorem format_field_ref_never_crashes :
+  forall els index, field_ref src_format_field_ref_guard els index <> Crash.
+Proof. exact field_ref_guarded_no_crash. Qed.
+Print Assumptions format_field_ref_never_crashes.
+
+Theorem format_field_ref_found_in_template :
+  forall guard els index e, field_ref guard els index = Found e -> In e els.
+Proof. exact field_ref_found_in. Qed.
+Print Assumptions format_field_ref_found_in_template.
+
+(* the bounds, for both variants of the loop: F = EXPR elements after the first element; N <= F + 1
+   is found, N = F + 2 stops exactly at the end of the list, N >= F + 3 has to step from the null
+   pointer - an error with the guard, a crash without it *)
+Theorem format_field_ref_bounds :
+  forall guard els index, 1 <= index <= 15 ->
+  match els with
+  | [] => (index = 1 -> field_ref guard els index = NoSuchField) /\
+          (2 <= index -> field_ref guard els index = if guard then NoSuchField else Crash)
+  | _ :: t =>
+      let F := Z.of_nat (count_exprs t) in
+      (index <= F + 1 -> exists e, field_ref guard els index = Found e) /\
+      (index = F + 2 -> field_ref guard els index = NoSuchField) /\
+      (F + 3 <= index -> field_ref guard els index = if guard then NoSuchField else Crash)
+  end.
+Proof. exact field_ref_spec. Qed.
+Print Assumptions format_field_ref_bounds.
+
 (* ================= the guards the theorems rely on are in the source ================= *)
 Theorem source_guards_present :
   src_period_zero_guard = true /\ src_int_div_guard = true /\ src_line_too_long_guard = true /\
   src_asserts_throw = true /\ src_read_into_as_modelled = true /\ src_line_getline = src_max_line /\
   (* guards added by the repairs of F42 F47 F39 F43 F45 *)
   src_conversion_cycle_guard = true /\ src_expr_argument_guard = true /\ src_script_loop_guard = true /\
-  src_no_xact_journal_master = true /\ src_find_account_no_frame_buffer = true.
+  src_no_xact_journal_master = true /\ src_find_account_no_frame_buffer = true /\
+  src_format_field_ref_guard = true.
 Proof. repeat split; reflexivity. Qed.
 Print Assumptions source_guards_present.
 
